@@ -149,8 +149,8 @@ def main():
                 # (first witnesses) or as many but different ones (found later, dense stream) is a symptom, not part of the signature
                 key = "recorded-attaches-dependent-vertex"
             elif (plain_valid and all(f in vq for f in ("shape=1", "acct=1", "deps=1", "closure=1", "comps=1")) and len(diffs) == 1 and diffs[0].startswith("dependents ")
-                  and sorted(r["recorded"]["vertices"]) == sorted(r["plain"]["vertices"]) and len(r["recorded"]["dependents"]) == len(r["plain"]["dependents"])):
-                # both runs are valid reductions with the same canonical graph; the twin reports the dependent input in another reduced form
+                  and len(r["recorded"]["dependents"]) == len(r["plain"]["dependents"])):
+                # both runs are valid reductions (same closure, same algebra); the twin reports a dependent input in another reduced form
                 key = "recorded-reports-dependent-in-another-reduced-form"
             elif plain_valid and "deps=0" in vq and "closure=0" in vq and "shape=1" in vq and "acct=1" in vq:
                 # the recorded run reported as dependent (and dropped) a generator that is independent of what it kept
